@@ -694,3 +694,74 @@ def r3_8(run):
 
 
 RULES.append(("R3.8", r3_8))
+
+
+def transient_guarded_input_stores(ix):
+    """[(function, store event, column term, guarded by the transient options?)] for the stores of the pit-filling hooks whose value
+    is read from a column of the component's element table"""
+    from ..arrnf import ANF, walk
+    out, n, seen = [], 0, set()
+
+    def from_table(t):
+        # net[<table>].<col> / net[<table>][<col>] / <cls method>(net) values
+        for x in walk(t):
+            if isinstance(x, tuple) and x and x[0] in ("attr", "idx") and isinstance(x[1], tuple) and x[1][:1] == ("idx",) \
+                    and x[1][1] == ("n", "net") and not (x[1][2] and x[1][2][0][0] == "c" and str(x[1][2][0][1]).startswith("_")):
+                return True
+        return False
+
+    def transient_test(c):
+        for x in walk(c):
+            if isinstance(x, tuple) and x and x[0] == "call" and x[1][0] == "f" and x[1][1].endswith(".get_net_option") and len(x[2]) == 2 \
+                    and x[2][1] in (("c", "transient"), ("c", "simulation_time_step")):
+                return True
+        return False
+    for c in ix.components():
+        for h in ("create_pit_branch_entries", "create_pit_node_entries"):
+            f = ix.lookup_method(c, h)
+            if f is None or f.cls.name == "Component" or f.qualname in seen:
+                continue
+            seen.add(f.qualname)
+            try:
+                r = ANF(ix, f, strip=False).run()
+            except AnalysisError:
+                continue
+            for e in r.stores():
+                if not e.index or len(e.index) != 2 or e.index[1][0] != "k":
+                    continue
+                if not from_table(e.value):
+                    continue
+                n += 1
+                out.append((f, e, e.index[1], any(transient_test(c_) for c_, _p in e.cond)))
+    return out, n
+
+
+# pit columns that describe the structure of the net and may be filled in the first step of a transient run only (the pit is
+# reused afterwards); confirmed by reading the hooks of Junction, Pipe and Valve
+ONCE_ONLY_COLUMNS = {"ELEMENT_IDX": "row label", "HEIGHT": "geometry", "PAMB": "follows HEIGHT", "ACTIVE": "in_service of nodes, re-read by the connectivity check",
+                     "FROM_NODE": "topology", "TO_NODE": "topology", "D": "geometry", "DO": "geometry", "AREA": "geometry", "LENGTH": "geometry",
+                     "TABLE_IDX": "row label", "NODE_TYPE": "structure", "K": "geometry"}
+
+
+def r3_9(run):
+    """a prescribed value may change between the steps of a transient run (a lift or flow profile through ConstControl): every
+    pit entry that a hook reads from a user column is written in every step.  Stores guarded by the transient options
+    (`if not transient or simulation_time_step == 0`) are confined to the structural columns (labels, topology, geometry); a
+    set-point column filled in step 0 only keeps the value of the first step for the whole series."""
+    from ..arrnf import show as tshow
+    ix = run.index
+    sites, n = transient_guarded_input_stores(ix)
+    for f, e, col, guarded in sites:
+        if not guarded:
+            continue
+        run.analysed(f)
+        name = col[1].rsplit(".", 1)[-1]
+        run.ob("%s|%s|filled-in-every-step" % (f.short, name), name in ONCE_ONLY_COLUMNS,
+               "%s is a structural column (%s) and may be filled in the first transient step only" % (name, ONCE_ONLY_COLUMNS.get(name, "not in the table")),
+               run.where(f, e.node), detail=tshow(e.value)[:100])
+    run.stat("pit_stores_read_from_user_columns", n)
+    run.ob("input-stores-scanned", n >= 25, "stores of the pit-filling hooks that read a user column: %d" % n, "component_models")
+    run.floor(5)
+
+
+RULES.append(("R3.9", r3_9))
